@@ -349,3 +349,81 @@ def FIXEDW(text):
 
 
 BUILTINS = {k: v for k, v in list(globals().items()) if k.isupper() or k in ("Witness",)}
+
+
+def VALIDNAME(name):
+    return re.fullmatch(r"[A-Za-z_]\w*", name) is not None
+
+
+def BREFNAME(name):
+    return re.fullmatch(r"[A-Za-z_][A-Za-z_0-9]*", name) is not None
+
+
+def TP(x):
+    return pre().Pregex._to_pregex(x)
+
+
+def METHOD(obj, name, *args):
+    return getattr(obj, name)(*args)
+
+
+def _group_shape(p):
+    t = str(p)
+    if t.startswith("(?:"):
+        return "nc", t[3:-1], None
+    if t.startswith("(?i:"):
+        return "nci", t[4:-1], None
+    if t.startswith("(?P<"):
+        i = t.index(">")
+        return "named", t[i + 1:-1], t[4:i]
+    if t.startswith("(?!"):
+        return "neglook", t[3:-1], None
+    if t.startswith("(?<!"):
+        return "neglookbehind", t[4:-1], None
+    if t.startswith("(?("):
+        return "cond", None, None
+    if t.startswith("(?P="):
+        return "bref", None, None
+    if t.startswith("(?"):
+        return "other", None, None
+    return "cap", t[1:-1], None
+
+
+def SHAPE(p):
+    return _group_shape(p)[0]
+
+
+def BODY(p):
+    return _group_shape(p)[1]
+
+
+def GNAME(p):
+    return _group_shape(p)[2]
+
+
+def CALLEE_RAISES(qualshort, exc, selfobj, *args):
+    import contracts, inspect
+    q = "pregex.core.pre.Pregex." + qualshort
+    c = contracts.ALL[q]
+    f = getattr(pre().Pregex, qualshort)
+    ba = inspect.signature(f).bind(selfobj, *args)
+    ba.apply_defaults()
+    cond = c.get("raises", {}).get(exc)
+    return bool(cond) and bool(eval_clause(cond, dict(ba.arguments)))
+
+
+def FIRST_EXC(qualshort, selfobj, *args):
+    import contracts
+    q = "pregex.core.pre.Pregex." + qualshort
+    for exc in contracts.ALL[q].get("raises", {}):
+        if CALLEE_RAISES(qualshort, exc, selfobj, *args):
+            return exc
+    return ""
+
+
+def INFERRED(p):
+    t, r = pre().Pregex._Pregex__infer_type(str(p))
+    return p._get_type() == t and p._is_repeatable() == r
+
+
+BUILTINS = {k: v for k, v in list(globals().items()) if k.isupper() or k in ("Witness",)}
